@@ -65,7 +65,7 @@ func (r *evenRanger) ProvidesIndex() bool { return false }
 
 func genRangerCase(r *h.Rand) h.Case {
 	n := r.Intn(4)
-	kind := r.Pick([]string{"slice", "map", "ptr"})
+	kind := r.Pick([]string{"slice", "map", "ptr", "chan"})
 	form := r.Intn(4)
 	return h.Case{Stream: "rangers", NoModel: true, NonTrivial: true, Tags: []string{kind, fmt.Sprintf("n%d", n)},
 		Cmd: sx.L(sx.A("custom-ranger"), sx.A(kind), sx.I(int64(n)), sx.I(int64(form)), sx.I(int64(r.Intn(50))))}
@@ -101,6 +101,17 @@ func init() {
 				keys = append(keys, names[i])
 				vals = append(vals, fmt.Sprint(base+i+1000))
 			}
+		case "chan":
+			// a channel is index-less like evenRanger: the one-variable form binds the element
+			ch := make(chan int, n)
+			for i := 1; i <= n; i++ {
+				ch <- base + i
+				keys = append(keys, "")
+				vals = append(vals, fmt.Sprint(base+i))
+			}
+			close(ch)
+			rg = ch
+			kind = "ptr"
 		default:
 			rg = &evenRanger{max: 2 * n}
 			for i := 1; i <= n; i++ {
@@ -126,16 +137,19 @@ func init() {
 				want += keys[i] + ":" + vals[i] + ";"
 			}
 		default:
-			src = `{{range v := cr}}{{ v }},{{end}}|`
+			// one variable: the index where the ranger provides one ('.' is then the element), the element
+			// where it does not ('.' then stays what it was)
+			src = `{{range v := cr}}{{.}}/{{ v }},{{end}}{{.}}|`
 			if kind == "ptr" {
 				for i := range vals {
-					want += vals[i] + ","
+					want += "ctx/" + vals[i] + ","
 				}
 			} else {
 				for i := range keys {
-					want += keys[i] + ","
+					want += vals[i] + "/" + keys[i] + ","
 				}
 			}
+			want += "ctx"
 		}
 		if len(vals) == 0 && (form <= 2) {
 			if !(form == 0 && kind == "ptr") && !(form == 2 && kind == "ptr") {
@@ -143,7 +157,7 @@ func init() {
 			}
 		}
 		if len(vals) == 0 && kind == "ptr" && (form == 0 || form == 2) {
-			want = "" // falls to the default form without else
+			want = "ctx" // falls to the default form without else: only the context after the loop
 		}
 		want += "|"
 		set := newSetFor(map[string]string{"/t.jet": src}, "html", nil)
@@ -152,7 +166,7 @@ func init() {
 			return sx.L(sx.A("parse-error")), "ranger template did not parse: " + err.Error()
 		}
 		var buf bytes.Buffer
-		xerr := executeContained(t, &buf, jet.VarMap{"cr": reflect.ValueOf(rg)}, nil)
+		xerr := executeContained(t, &buf, jet.VarMap{"cr": reflect.ValueOf(rg)}, "ctx")
 		if xerr != nil {
 			return sx.L(sx.A("err"), sx.S(xerr.Error())), "ranging over a user-defined Ranger failed: " + clipS(xerr.Error())
 		}
